@@ -1,3 +1,86 @@
-(* C20 - index-safety theorems of the modelled kernels, re-exported (filled in as the
-   kernels' own developments land). *)
-From Coq Require Import List.
+(* C20 - "no compiled kernel reads or writes outside the bounds of the arrays it
+   is given": the index-safety theorems proved in the kernels' own developments
+   (each model performs CHECKED accesses or states its index ranges explicitly),
+   re-exported here as C20 obligations with their original statements.  The
+   purity half of C20 (callers' data unchanged) is a check on sampled calls - see
+   harness/props/c20.py.  When one of the imported developments no longer
+   builds (its kernel source changed), these obligations break with it. *)
+From NV.C09 Require Properties.
+From NV.C13 Require Properties.
+From NV.C16 Require Properties.
+From NV.C17 Require Properties.
+From NV.C12 Require Properties.
+From NV.C02 Require Properties.
+
+Ltac reexport L := let T := type of L in exact T.
+
+(* joint_histogram.c (translated from source): a voxel passing the inside test reads J
+   only inside the padded array, with non-negative weights *)
+Theorem c20_joint_histogram_reads_in_bounds : ltac:(reexport NV.C09.Properties.inside_implies_in_bounds).
+Proof. exact NV.C09.Properties.inside_implies_in_bounds. Qed.
+Print Assumptions c20_joint_histogram_reads_in_bounds.
+
+(* every H write index of the pv and tri updates lies in [0, clampI*clampJ) *)
+Theorem c20_joint_histogram_writes_in_bounds : ltac:(reexport NV.C09.Properties.hist_writes_in_bounds).
+Proof. exact NV.C09.Properties.hist_writes_in_bounds. Qed.
+Print Assumptions c20_joint_histogram_writes_in_bounds.
+
+(* voxels outside the grid or with negative intensity leave H (and the rand buffer) untouched *)
+Theorem c20_joint_histogram_outside_untouched : ltac:(reexport NV.C09.Properties.only_inside_nonneg_contribute).
+Proof. exact NV.C09.Properties.only_inside_nonneg_contribute. Qed.
+Print Assumptions c20_joint_histogram_outside_untouched.
+
+(* mrf.c (neighbour tables translated from source): every ppm index dereferenced by
+   _ngb_integrate is inside the buffer, for any grid, table and centre voxel *)
+Theorem c20_mrf_reads_in_bounds : ltac:(reexport NV.C13.Properties.ve_reads_in_bounds).
+Proof. exact NV.C13.Properties.ve_reads_in_bounds. Qed.
+Print Assumptions c20_mrf_reads_in_bounds.
+
+Theorem c20_mrf_writes_in_bounds : ltac:(reexport NV.C13.Properties.ve_writes_in_bounds).
+Proof. exact NV.C13.Properties.ve_writes_in_bounds. Qed.
+Print Assumptions c20_mrf_writes_in_bounds.
+
+(* quantile.c: the selection loops (checked accesses, explicit fuel) never fault and
+   terminate for every array incl. ties, leaving a permutation of the input *)
+Theorem c20_quantile_select_no_fault : ltac:(reexport NV.C16.Properties.pth_element_spec).
+Proof. exact NV.C16.Properties.pth_element_spec. Qed.
+Print Assumptions c20_quantile_select_no_fault.
+
+(* strided buffers: distinct logical indices have distinct addresses inside the block;
+   the all-but-axis fibres visit every element offset exactly once *)
+Theorem c20_strided_layout : ltac:(reexport NV.C16.Properties.strided_layout).
+Proof. exact NV.C16.Properties.strided_layout. Qed.
+Print Assumptions c20_strided_layout.
+
+Theorem c20_fibre_iteration_exact_cover : ltac:(reexport NV.C16.Properties.fibre_iteration_exact_cover).
+Proof. exact NV.C16.Properties.fibre_iteration_exact_cover. Qed.
+Print Assumptions c20_fibre_iteration_exact_cover.
+
+(* cubic_spline.c: every coefficient index read is inside the array, in every boundary mode *)
+Theorem c20_spline_mirror_index_in_bounds : ltac:(reexport NV.C16.Properties.mirror_index_in_bounds).
+Proof. exact NV.C16.Properties.mirror_index_in_bounds. Qed.
+Print Assumptions c20_spline_mirror_index_in_bounds.
+
+Theorem c20_spline_sample_positions_in_bounds : ltac:(reexport NV.C16.Properties.sample_positions_in_bounds_all_modes).
+Proof. exact NV.C16.Properties.sample_positions_in_bounds_all_modes. Qed.
+Print Assumptions c20_spline_sample_positions_in_bounds.
+
+(* fff_gen_stats.c: every generated permutation only contains indices 0..n-1 (each once) *)
+Theorem c20_permutation_indices_in_range : ltac:(reexport NV.C17.Properties.permutation_is_perm).
+Proof. exact NV.C17.Properties.permutation_is_perm. Qed.
+Print Assumptions c20_permutation_indices_in_range.
+
+Theorem c20_combination_indices_in_range : ltac:(reexport NV.C17.Properties.combination_sorted_subset).
+Proof. exact NV.C17.Properties.combination_sorted_subset. Qed.
+Print Assumptions c20_combination_indices_in_range.
+
+(* Forest: an accepted parent array only holds indices 0..V-1 (no out-of-range walk), and the
+   constructor never fails with an index error *)
+Theorem c20_forest_parents_in_range : ltac:(reexport NV.C12.Properties.ctor_in_range).
+Proof. exact NV.C12.Properties.ctor_in_range. Qed.
+Print Assumptions c20_forest_parents_in_range.
+
+(* a negative integer axis resolves inside [0, number of input axes) *)
+Theorem c20_axis_index_in_range : ltac:(reexport NV.C02.Properties.input_axis_index_negative_in_range).
+Proof. exact NV.C02.Properties.input_axis_index_negative_in_range. Qed.
+Print Assumptions c20_axis_index_in_range.
